@@ -84,6 +84,7 @@ type Peer struct {
 
 	// counters (atomic)
 	GotGetHeaders, GotGetCFHeaders, GotGetCFCheckpt, GotGetCFilters, GotGetData, GotInvTx, GotTx int32
+	flooding                                                                                     int32
 	Handshakes                                                                                   int32
 	sentTotal                                                                                    int32
 	didDisconnect                                                                                int32
@@ -413,6 +414,9 @@ func (s *session) handle(m wire.Message) {
 		s.send(wire.NewMsgPong(msg.Nonce))
 
 	case *wire.MsgGetHeaders:
+		if atomic.LoadInt32(&p.flooding) != 0 {
+			return // it does not answer the requests its junk announcements provoke
+		}
 		p.mu.Lock()
 		p.lastLocator = nil
 		for _, h := range msg.BlockLocatorHashes {
@@ -714,6 +718,38 @@ func (s *session) garbage() {
 }
 
 var _ = io.EOF
+
+// Flood queues n block announcements for hashes nobody knows, one inv message
+// each, on the live connection (a misbehaving or broken peer; also what a
+// hundred peers announcing at once look like to the block handler's queue).
+func (p *Peer) Flood(n int) {
+	p.mu.Lock()
+	s := p.cur
+	p.mu.Unlock()
+	if s == nil {
+		return
+	}
+	atomic.StoreInt32(&p.flooding, 1)
+	for i := 0; i < n; i++ {
+		h := chainhash.DoubleHashH([]byte(fmt.Sprintf("flood %d %d", p.Idx, i)))
+		inv := wire.NewMsgInv()
+		inv.AddInvVect(wire.NewInvVect(wire.InvTypeBlock, &h))
+		s.send(inv)
+	}
+}
+
+// Backlog is the number of messages still waiting to be written to the client.
+func (p *Peer) Backlog() int {
+	p.mu.Lock()
+	s := p.cur
+	p.mu.Unlock()
+	if s == nil {
+		return 0
+	}
+	s.mu.Lock()
+	defer s.mu.Unlock()
+	return len(s.q)
+}
 
 // Tip is the tip of the chain this peer serves right now.
 func (p *Peer) Tip() *Blk { return p.tip() }
